@@ -9,6 +9,7 @@
 import Minicbor.Drv.Proto
 import Minicbor.Encoder
 import Minicbor.Decoder
+import Minicbor.Narrow
 
 namespace Minicbor.Drv
 
@@ -49,5 +50,14 @@ def fblkOp (w : List String) : String :=
       | none => "bad-op"
     | _, _, _ => "bad-op"
   | _ => "bad-op"
+
+/-- `fnarrow <f64 bits hex>…`: `f64ToF32` (Narrow.lean) on each pattern. -/
+def fnarrowOp (w : List String) : String :=
+  let one (a : String) : Option String :=
+    (bytesOfHex (if a.length % 2 == 1 then "0" ++ a else a)).bind fun bs =>
+      if bs.length ≤ 8 then some (hexOfBytes (be 4 (f64ToF32 (fromBe bs)))) else none
+  match w.mapM one with
+  | some rs => if rs.isEmpty then "bad-op" else ",".intercalate rs
+  | none => "bad-op"
 
 end Minicbor.Drv
